@@ -39,6 +39,7 @@ func plans(seed uint64) []univ.SeedPlan {
 	return []univ.SeedPlan{
 		{Seed: seed, MaxList: 3},
 		{Seed: seed + 1, ErrPermille: 60, NullPermille: 60, DirPermille: 80, MaxList: 3},
+		{Seed: seed + 5, ErrPermille: 40, NullPermille: 60, NonFinitePermille: 300, MaxList: 3},
 		{Seed: seed + 2, ErrPermille: 200, ListPermille: 80, NullPermille: 250, DirPermille: 300, MaxList: 2},
 		{Seed: seed + 3, ErrPermille: 30, NullPermille: 400, MaxList: 4},
 		{Seed: seed + 4, ErrPermille: 500, NullPermille: 0, DirPermille: 0, MaxList: 3},
@@ -66,7 +67,7 @@ func main() {
 	}
 	seed := ev.Seed()
 	nOps := ev.Pick(60, 400)
-	nPlans := ev.Pick(3, 5)
+	nPlans := ev.Pick(4, 6)
 	only := os.Getenv("VERIF_PROBE")
 	replay := os.Getenv("VERIF_REPLAY")
 
@@ -163,6 +164,11 @@ func runCase(rep *ev.Reporter, srv *drive.Server, env *univ.Env, doc *ast.QueryD
 	rep.Count("directive_calls", int64(st.Directives))
 	rep.Count("directive_blocks", int64(st.DirBlocked))
 	rep.Count("errors_expected", int64(len(want.Errors)))
+	for _, e := range want.Errors {
+		if e.Class == "nonfinite" {
+			rep.Count("errors_expected_nonfinite_float", 1)
+		}
+	}
 	rep.Count("typenames", int64(st.Typenames))
 	rep.Count(fmt.Sprintf("list_depth_max_%d", st.ListDepthMax), 1)
 	if want.Data != nil && want.Data.Kind == 0 {
